@@ -15,7 +15,7 @@ From Coq Require Import ZArith List Bool String Arith Permutation FloatOps SpecF
 From Coq Require PrimFloat.   (* not imported: Print Assumptions then prints the primitives qualified *)
 From PF Require Import Lib.ListX Lib.PySlice Lib.FloatInt Gen.Tables.
 From PF Require Import Model.Dataset Model.DatasetSpec Model.DatasetRun Model.DatasetHeap Model.Split Model.NpShuffle Legacy.DatasetLegacy.
-From PF Require Import Proofs.FloatIntFacts Proofs.DatasetProofs Proofs.DatasetHeapProofs Proofs.SplitProofs Proofs.NpShuffleProofs.
+From PF Require Import Proofs.FloatIntFacts Proofs.DatasetProofs Proofs.DatasetHeapProofs Proofs.SplitProofs Proofs.NpShuffleProofs Proofs.MaskFacts Proofs.MaskDataset.
 Import ListNotations.
 Local Notation length := List.length (only parsing).
 
@@ -85,6 +85,17 @@ Theorem select_exact : forall (d : ds) (i : dindex),
      Some (with_rows d rows (map rid rows))).
 Proof. exact select_exact_proof. Qed.
 Print Assumptions select_exact.
+
+(* ... and for a boolean mask that selection is, in plain terms, exactly the rows whose entry is True, each once, in
+   their original order (`keep_true` = a filter; Proofs/MaskFacts.v), a mask of another length being rejected *)
+Theorem select_by_mask_keeps_true_rows : forall (d : ds) (mk : list bool),
+  materialized d = true -> aligned d ->
+  index_select d (DIdx (IMask mk)) =
+    if (length mk =? len d)%nat
+    then Some (with_rows d (keep_true mk (df d)) (map rid (keep_true mk (df d))))
+    else None.
+Proof. exact select_mask_proof. Qed.
+Print Assumptions select_by_mask_keeps_true_rows.
 
 (* shuffle: with perm the value of torch.randperm(len) (a permutation of
    0..len-1), the result's row i is the parent's row perm[i], it is a
